@@ -25,6 +25,10 @@
 EXTENDS Integers, Sequences, FiniteSets, TLC, TLCExt, Json, IOUtils, SequencesExt, WireBase
 
 CONSTANT Level      \* "detail": detail and property clauses;  "prop": property clauses only
+\* CodecFails(v, e): detail-level clauses tying the recorded codec values (zs, d) of an event to the
+\* Huffman specification of C07 for small inputs; WireTraceH.tla supplies it from spec/huffman,
+\* WireTraceN.tla supplies {} (no tie: the codec values are then trusted as recorded)
+CONSTANT CodecFails(_, _)
 
 W6 == INSTANCE Wire
 W7 == INSTANCE Wire7
@@ -238,7 +242,7 @@ DetailFails(e) ==
                      \cup (IF e.out.r = "ok" /\ e.rw.r = "ok" THEN DetailRT(e.v, e.rw, FALSE, <<>>) ELSE {})
     [] OTHER -> {}
 
-Fails(e) == [p |-> PropFails(e), d |-> IF Level = "detail" THEN DetailFails(e) ELSE {}]
+Fails(e) == [p |-> PropFails(e), d |-> IF Level = "detail" THEN DetailFails(e) \cup CodecFails(e.v, e) ELSE {}]
 
 \* An event is either a single case or a batch [k |-> "batch", base, items] of cases (cheaper:
 \* one TLC state per batch); bad cases are reported by their position in the whole trace.
